@@ -4,10 +4,33 @@ the context and executes the calls as named steps.  No expected values here.
 """
 import numpy as np
 
-from .registry import recipe, SHAPE, XPOS, YPOS, CUT
+import collections
+
+from .registry import recipe, SHAPE, XPOS, YPOS, CUT, FRAMES
 
 POS3 = ((15.0, 14.0), (31.0, 20.0), (1.0, 1.5))      # third aperture is cut by the image corner
 CUT_SHAPE = (19, 21)
+
+# geometry alphabets (names of registry.FRAMES; see there)
+G_ALL = ('base', 'tight', 'fullwidth', 'fullheight', 'under', 'row', 'col')
+G_BLOCK = ('base', 'tight', 'fullwidth', 'fullheight', 'under')      # entry points that need a 2-D neighbourhood
+G_SMALL = ('base', 'tight', 'under')
+G_LINE = ('base', 'row', 'col')                                      # whole-image reductions: degenerate images
+G_DET = ('base', 'tight', 'under', 'five', 'row', 'col')
+# single-source cutouts handed to the centroid / moment functions as the whole array
+CUTS = collections.OrderedDict([
+    ('base', CUT),                                   # 19x21
+    ('row', (slice(14, 15), slice(5, 26))),          # 1x21 through the source
+    ('col', (slice(5, 24), slice(17, 18))),          # 19x1
+    ('tiny', (slice(13, 16), slice(14, 17))),        # 3x3 around the peak: smaller than every default fit box
+    ('box5', (slice(12, 17), slice(13, 18))),        # 5x5: the default fit box of centroid_quadratic is the whole array
+])
+G_CUT = tuple(CUTS)
+
+
+def _pos3(c):
+    """POS3 in frame coordinates (the corner aperture stays at the corner of the frame)."""
+    return ((c.fx(15.0), c.fy(14.0)), (c.fx(31.0), c.fy(20.0)), (1.0, 1.5))
 
 
 def _sigclip():
@@ -21,21 +44,23 @@ def _sigclip():
 def _pixel_aperture(c, clsname, params):
     import photutils.aperture as pa
     cls = getattr(pa, clsname)
-    pos = c.hold('positions', np.array(POS3))
+    pos = c.hold('positions', np.array(_pos3(c)))
     d, e, m = c.data(), c.error(), c.mask()
     wcs = c.hold('wcs', _wcs())
     ap = c.step(clsname, lambda: cls(pos, *params))
     if ap is None:
         return
     c.hold('aperture', ap)
-    c.members(clsname, ap)
+    if c.geom == 'base':                 # members that do not involve the image: once
+        c.members(clsname, ap)
     c.step(f'{clsname}.area_overlap', lambda: ap.area_overlap(d, mask=m))
     c.step(f'{clsname}.do_photometry', lambda: ap.do_photometry(d, e, m), mix=True)
     c.step(f'{clsname}.do_photometry[center]', lambda: ap.do_photometry(d, e, m, method='center'), mix=True)
-    tiny = cls((16.0, 14.0), *[p * 0.05 if i < len(params) - (0 if 'Circular' in clsname else 1) else p for i, p in enumerate(params)])
+    tiny = cls((c.fx(16.0), c.fy(14.0)), *[p * 0.05 if i < len(params) - (0 if 'Circular' in clsname else 1) else p for i, p in enumerate(params)])
     c.step(f'{clsname}.do_photometry[tiny aperture on a masked pixel]', lambda: tiny.do_photometry(d, e, m), mix=True)
-    c.step(f'{clsname}.to_sky', lambda: ap.to_sky(wcs))
-    c.step(f'{clsname}.to_mask[subpixel]', lambda: [mk.data for mk in ap.to_mask(method='subpixel', subpixels=3)])
+    if c.geom == 'base':
+        c.step(f'{clsname}.to_sky', lambda: ap.to_sky(wcs))
+        c.step(f'{clsname}.to_mask[subpixel]', lambda: [mk.data for mk in ap.to_mask(method='subpixel', subpixels=3)])
     c.step(f'aperture_photometry[{clsname}]', lambda: pa.aperture_photometry(d, ap, error=e, mask=m), mix=True)
 
 
@@ -53,7 +78,8 @@ _PIX = {
     'RectangularAnnulus': ('rectangle', (3.0, 8.0, 5.0, 1.875, 0.4)),
 }
 for _n, (_mod, _p) in _PIX.items():
-    recipe(_n, [f'aperture.{_mod}.{_n}'], units=True)(lambda c, _n=_n, _p=_p: _pixel_aperture(c, _n, _p))
+    # CircularAperture(r=4): bounding box == the 'tight' image, larger than the 'under' image on every side
+    recipe(_n, [f'aperture.{_mod}.{_n}'], units=True, geoms=G_ALL)(lambda c, _n=_n, _p=_p: _pixel_aperture(c, _n, _p))
 
 
 def _sky_aperture(c, clsname, params):
@@ -87,17 +113,17 @@ for _n, (_mod, _p) in _SKY.items():
     recipe(_n, [f'aperture.{_mod}.{_n}'], units=True)(lambda c, _n=_n, _p=_p: _sky_aperture(c, _n, _p))
 
 
-@recipe('ApertureMask', ['aperture.mask.ApertureMask'], units=True)
+@recipe('ApertureMask', ['aperture.mask.ApertureMask'], units=True, geoms=G_ALL)
 def _aperture_mask(c):
     from photutils.aperture import ApertureMask, BoundingBox, CircularAperture
     d, m = c.data(), c.mask()
     w = c.hold('mask_weights', CircularAperture((15.0, 14.0), 4.0).to_mask().data.copy())
-    bbox = BoundingBox(11, 20, 10, 19)
+    bbox = BoundingBox(*c.block_bbox())          # base: (11, 20, 10, 19); 'tight': exactly the image
     am = c.step('ApertureMask', lambda: ApertureMask(w, bbox))
     if am is None:
         return
     c.members('ApertureMask', am)
-    c.step('ApertureMask.to_image', lambda: am.to_image(SHAPE))
+    c.step('ApertureMask.to_image', lambda: am.to_image(c.shape))
     c.step('ApertureMask.cutout', lambda: am.cutout(d))
     c.step('ApertureMask.cutout[copy]', lambda: am.cutout(d, copy=True))
     c.step('ApertureMask.multiply', lambda: am.multiply(d))
@@ -109,14 +135,14 @@ def _aperture_mask(c):
     c.step('ApertureMask.get_values[edge]', lambda: am2.get_values(d, mask=m))
 
 
-@recipe('aperture_photometry', ['aperture.photometry.aperture_photometry'], nddata=True, units=True)
+@recipe('aperture_photometry', ['aperture.photometry.aperture_photometry'], nddata=True, units=True, geoms=G_ALL)
 def _aperture_photometry(c):
     from photutils.aperture import CircularAnnulus, CircularAperture, aperture_photometry
     d = c.data(nddata_ok=True)
     e, m = c.error(), c.mask()
-    aps = c.hold('apertures', [CircularAperture(POS3, 4.0), CircularAnnulus(POS3, 5.0, 8.0)])
+    aps = c.hold('apertures', [CircularAperture(_pos3(c), 4.0), CircularAnnulus(_pos3(c), 5.0, 8.0)])
     # a tiny aperture on pixel (x=16, y=14): entirely masked in the 'masked' condition
-    tiny = c.hold('tiny_aperture', CircularAperture((16.0, 14.0), 0.3))
+    tiny = c.hold('tiny_aperture', CircularAperture((c.fx(16.0), c.fy(14.0)), 0.3))
     for method in ('exact', 'center', 'subpixel'):
         c.step(f'aperture_photometry[{method}]', lambda: aperture_photometry(d, aps, error=e, mask=m, method=method, subpixels=3), mix=True)
     c.step('aperture_photometry[tiny aperture on a masked pixel]', lambda: aperture_photometry(d, tiny, error=e, mask=m), mix=True)
@@ -137,13 +163,13 @@ def _converters(c):
         c.step('region_to_aperture', lambda: region_to_aperture(reg2))
 
 
-@recipe('ApertureStats', ['aperture.stats.ApertureStats'], nddata=True, units=True)
+@recipe('ApertureStats', ['aperture.stats.ApertureStats'], nddata=True, units=True, geoms=G_ALL)
 def _aperture_stats(c):
     from photutils.aperture import ApertureStats, CircularAperture
     wcs = c.hold('wcs', _wcs())
     d = c.data(nddata_ok=True, nd_wcs=wcs)
     e, m = c.error(), c.mask()
-    ap = c.hold('aperture', CircularAperture(POS3, 4.0))
+    ap = c.hold('aperture', CircularAperture(_pos3(c), 4.0))
     lb = c.hold('local_bkg', np.array([1.0, 2.0, 0.5]))
     if c.rep == 'nddata':
         wcs = None          # taken from the NDData
@@ -159,10 +185,38 @@ def _aperture_stats(c):
 # --------------------------------------------------------------------------
 # photutils.background
 # --------------------------------------------------------------------------
+# Box layouts of Background2D (geometry axis).  The implementation splits the image into the "core" (ny x nx whole
+# boxes), an extra row / column / corner of partial boxes, and reshapes each part into boxes: whether those reshapes
+# are views of the caller's buffer depends on ny, nx and on the remainders.  Full product
+#   ny, nx in {1, 2, 3}  x  remainder rows, columns in {none, some}  x  edge_method in {pad, crop}
+# The image is the scene with up to two trailing rows / columns cut off so that the boxes divide it exactly
+# (remainder 'none') -- every bad pixel of the scene lies inside every frame.
+#            n: (image size without remainder, box) / (image size with remainder, box)
+_BKG_ROWS = {1: ((41, 41), (41, 38)), 2: ((40, 20), (41, 19)), 3: ((39, 13), (41, 13))}
+_BKG_COLS = {1: ((47, 47), (47, 43)), 2: ((46, 23), (47, 22)), 3: ((45, 15), (47, 15))}
+BKG_LAYOUTS = collections.OrderedDict()
+for _ny in (1, 2, 3):
+    for _nx in (1, 2, 3):
+        for _ry in (0, 1):
+            for _rx in (0, 1):
+                for _edge in ('pad', 'crop'):
+                    (_h, _bh), (_w, _bw) = _BKG_ROWS[_ny][_ry], _BKG_COLS[_nx][_rx]
+                    BKG_LAYOUTS[f'boxes {_ny}x{_nx}, remainder {_h - _ny * _bh}x{_w - _nx * _bw}, {_edge}'] = ((_h, _w), (_bh, _bw), _edge)
+# degenerate images: one row / one column of pixels through source 0
+BKG_LAYOUTS['image 1x47, boxes 1x3, remainder 0x11, pad'] = ('row', (1, 12), 'pad')
+BKG_LAYOUTS['image 1x47, boxes 1x1, remainder 0x0, pad'] = ('row', (1, 47), 'pad')
+BKG_LAYOUTS['image 41x1, boxes 4x1, remainder 1x0, pad'] = ('col', (10, 1), 'pad')
+BKG_LAYOUTS['image 41x1, boxes 1x1, remainder 0x0, pad'] = ('col', (41, 1), 'pad')
+_BKG_MEMBERS = ('background', 'background_rms', 'background_mesh', 'background_rms_mesh', 'background_median',
+                'background_rms_median', 'background_mesh_masked', 'background_rms_mesh_masked', 'npixels_mesh', 'npixels_map')
+
+
 @recipe('Background2D', ['background.background_2d.Background2D', 'background.interpolators.BkgZoomInterpolator'],
-        nddata=True, units=True)
+        nddata=True, units=True, geoms=('base',) + tuple(BKG_LAYOUTS))
 def _background2d(c):
     from photutils.background import Background2D
+    if c.geom != 'base':
+        return _background2d_layout(c)
     d = c.data(nddata_ok=True)
     m = c.mask(even_for_nddata=True)     # Background2D takes data and unit from an NDData, the mask from the keyword
     cov = c.hold('coverage_mask', _coverage())
@@ -173,6 +227,24 @@ def _background2d(c):
     b3 = c.step('Background2D[crop, threshold]', lambda: Background2D(d, (8, 8), mask=m, edge_method='crop',
                                                                      filter_size=3, filter_threshold=25.0 * c.scale))
     c.members('Background2D[crop, threshold]', b3, only=('background', 'background_rms'))
+
+
+def _background2d_layout(c):
+    """One box layout: the image is a frame of the scene, sigma clipping (the
+    sources), the mask, the coverage mask and the non-finite pixels all make the
+    box statistics write NaN into their working array."""
+    from photutils.background import Background2D
+    frame, box, edge = BKG_LAYOUTS[c.geom]
+    c.set_frame(FRAMES[frame] if isinstance(frame, str) else (slice(0, frame[0]), slice(0, frame[1])))
+    d = c.data(nddata_ok=True)
+    m = c.mask(even_for_nddata=True)
+    cov = np.zeros(c.shape, bool)
+    cov[-1:, -2:] = True                 # a corner (lies in the partial corner box when there is one)
+    cov = c.hold('coverage_mask', cov)
+    lab = f'Background2D[{c.geom}]'
+    b = c.step(lab, lambda: Background2D(d, box, mask=m, coverage_mask=cov, filter_size=1, edge_method=edge,
+                                         exclude_percentile=50.0))
+    c.members(lab, b, only=_BKG_MEMBERS)
 
 
 def _coverage():
@@ -207,71 +279,82 @@ def _estimator(c, name):
 
 
 for _n in _BKG + _RMS:
-    recipe(_n, [f'background.core.{_n}'], units=True)(lambda c, _n=_n: _estimator(c, _n))
+    recipe(_n, [f'background.core.{_n}'], units=True, geoms=G_LINE)(lambda c, _n=_n: _estimator(c, _n))
 
 
-@recipe('LocalBackground', ['background.local_background.LocalBackground'], units=False)
+@recipe('LocalBackground', ['background.local_background.LocalBackground'], units=False, geoms=G_ALL)
 def _local_background(c):
     from photutils.background import LocalBackground
     d, m = c.data(), c.mask()
-    x = c.hold('x', XPOS.copy())
-    y = c.hold('y', YPOS.copy())
-    lb = LocalBackground(5, 8)
+    x = c.hold('x', c.fx(XPOS.copy()))       # sources outside a small frame: annulus without overlap
+    y = c.hold('y', c.fy(YPOS.copy()))
+    lb = LocalBackground(5, 8)               # the annulus is larger than the 'tight' / 'under' image on every side
     c.step('LocalBackground', lambda: lb(d, x, y, mask=m))
-    c.step('LocalBackground[scalar]', lambda: lb(d, 15.0, 14.0, mask=m))
+    c.step('LocalBackground[scalar]', lambda: lb(d, c.fx(15.0), c.fy(14.0), mask=m))
+    if c.geom != 'base':
+        lb2 = LocalBackground(2, 4)          # annulus (bounding box 9x9 = the block) around source 0
+        c.step('LocalBackground[small annulus]', lambda: lb2(d, c.fx(15.0), c.fy(14.0), mask=m))
 
 
 # --------------------------------------------------------------------------
 # photutils.centroids
 # --------------------------------------------------------------------------
+def _cutregion(c):
+    """Geometry of the single-source cutout recipes: c.geom names one of CUTS."""
+    c.set_frame(CUTS[c.geom])
+    return c
+
+
 def _bkgsub(c):
     """The single-source cutout, background-subtracted unless the condition is
     'negatives' (already subtracted) -- as the centroid docs require."""
-    return c.data(region=CUT, offset=(0.0 if c.cond == 'negatives' else -20.0))
+    _cutregion(c)
+    return c.data(offset=(0.0 if c.cond == 'negatives' else -20.0))
 
 
-@recipe('centroid_com', ['centroids.core.centroid_com'], units=True)
+@recipe('centroid_com', ['centroids.core.centroid_com'], units=True, geoms=G_CUT)
 def _centroid_com(c):
     from photutils.centroids import centroid_com
-    d, m = _bkgsub(c), c.mask(region=CUT)
+    d, m = _bkgsub(c), c.mask()
     c.step('centroid_com', lambda: centroid_com(d, mask=m))
     c.step('centroid_com[no mask]', lambda: centroid_com(d))
 
 
-@recipe('centroid_quadratic', ['centroids.core.centroid_quadratic'], units=True)
+@recipe('centroid_quadratic', ['centroids.core.centroid_quadratic'], units=True, geoms=G_CUT)
 def _centroid_quadratic(c):
     from photutils.centroids import centroid_quadratic
-    d, m = _bkgsub(c), c.mask(region=CUT)
+    d, m = _bkgsub(c), c.mask()
     c.step('centroid_quadratic', lambda: centroid_quadratic(d, mask=m))
-    c.step('centroid_quadratic[peak, search box]', lambda: centroid_quadratic(d, xpeak=10, ypeak=9, fit_boxsize=(5, 7),
+    c.step('centroid_quadratic[peak, search box]', lambda: centroid_quadratic(d, xpeak=int(c.src0()[0]), ypeak=int(c.src0()[1]), fit_boxsize=(5, 7),
                                                                              search_boxsize=5, mask=m))
 
 
-@recipe('centroid_1dg', ['centroids.gaussian.centroid_1dg'], units=True)
+@recipe('centroid_1dg', ['centroids.gaussian.centroid_1dg'], units=True, geoms=G_CUT)
 def _centroid_1dg(c):
     from photutils.centroids import centroid_1dg
-    d, e, m = _bkgsub(c), c.error(region=CUT), c.mask(region=CUT)
+    d, e, m = _bkgsub(c), c.error(), c.mask()
     c.step('centroid_1dg', lambda: centroid_1dg(d, error=e, mask=m), mix=True)
     c.step('centroid_1dg[no error]', lambda: centroid_1dg(d, mask=m))
     c.step('centroid_1dg[data only]', lambda: centroid_1dg(d))
 
 
-@recipe('centroid_2dg', ['centroids.gaussian.centroid_2dg'], units=True)
+@recipe('centroid_2dg', ['centroids.gaussian.centroid_2dg'], units=True, geoms=G_CUT)
 def _centroid_2dg(c):
     from photutils.centroids import centroid_2dg
-    d, e, m = _bkgsub(c), c.error(region=CUT), c.mask(region=CUT)
+    d, e, m = _bkgsub(c), c.error(), c.mask()
     c.step('centroid_2dg', lambda: centroid_2dg(d, error=e, mask=m), mix=True)
     c.step('centroid_2dg[no error]', lambda: centroid_2dg(d, mask=m))
     c.step('centroid_2dg[data only]', lambda: centroid_2dg(d))
 
 
-@recipe('centroid_sources', ['centroids.core.centroid_sources'], units=True)
+@recipe('centroid_sources', ['centroids.core.centroid_sources'], units=True, geoms=G_ALL)
 def _centroid_sources(c):
     from photutils.centroids import centroid_1dg, centroid_2dg, centroid_com, centroid_quadratic, centroid_sources
     d = c.data(offset=(0.0 if c.cond == 'negatives' else -20.0))
     e, m = c.error(), c.mask()
-    x = c.hold('xpos', XPOS.copy())
-    y = c.hold('ypos', YPOS.copy())
+    xs, ys = c.sources()                 # a 9x9 box around source 0 is the block: == image in the 'tight' frame
+    x = c.hold('xpos', xs)
+    y = c.hold('ypos', ys)
     fp = c.hold('footprint', np.ones((9, 9), bool))
     c.step('centroid_sources[com]', lambda: centroid_sources(d, x, y, box_size=9, mask=m, centroid_func=centroid_com))
     c.step('centroid_sources[quadratic, footprint]', lambda: centroid_sources(d, x, y, footprint=fp, mask=m,
@@ -321,7 +404,7 @@ def _model_params(c):
     c.step('params_table_to_models', lambda: [mm.parameters for mm in params_table_to_models(t, model)])
 
 
-@recipe('apply_poisson_noise', ['datasets.noise.apply_poisson_noise'], units=False)
+@recipe('apply_poisson_noise', ['datasets.noise.apply_poisson_noise'], units=False, geoms=G_LINE)
 def _apply_poisson_noise(c):
     from photutils.datasets import apply_poisson_noise
     d = c.data()
@@ -335,25 +418,37 @@ def _sub(c):
     return c.data(offset=(0.0 if c.cond == 'negatives' else -20.0))
 
 
-@recipe('find_peaks', ['detection.peakfinder.find_peaks'], units=True)
+@recipe('find_peaks', ['detection.peakfinder.find_peaks'], units=True, geoms=G_ALL)
 def _find_peaks(c):
     from photutils.centroids import centroid_2dg, centroid_com
     from photutils.detection import find_peaks
     d, e, m = _sub(c), c.error(), c.mask()
-    thr = c.hold('threshold', c.q(np.full(SHAPE, 100.0)))
+    thr = c.hold('threshold', c.q(np.full(c.shape, 100.0)))
     fp = c.hold('footprint', np.ones((5, 5), bool))
     wcs = c.hold('wcs', _wcs())
     c.step('find_peaks', lambda: find_peaks(d, c.q(100.0), box_size=5, mask=m), mix=True)
     c.step('find_peaks[threshold map, footprint, border]', lambda: find_peaks(d, thr, footprint=fp, mask=m, border_width=2, npeaks=2), mix=True)
     c.step('find_peaks[centroid_com, wcs]', lambda: find_peaks(d, c.q(100.0), box_size=5, mask=m, error=e, centroid_func=centroid_com, wcs=wcs), mix=True)
     c.step('find_peaks[centroid_2dg]', lambda: find_peaks(d, c.q(100.0), box_size=7, mask=m, error=e, centroid_func=centroid_2dg), mix=True)
+    if c.geom != 'base':
+        # the local-maximum box and the centroid cutout are as large as the image (9x9 in the 'tight' frame)
+        c.step('find_peaks[box 9, centroid_com]', lambda: find_peaks(d, c.q(100.0), box_size=9, mask=m, error=e, centroid_func=centroid_com), mix=True)
 
 
-@recipe('DAOStarFinder', ['detection.daofinder.DAOStarFinder'], units=True)
+def _xy2(c):
+    """Two source positions (the second one lies outside a small frame)."""
+    if c.geom == 'base':
+        return np.array([[15.0, 14.0], [31.0, 20.0]])
+    return np.array([list(c.src0()), [c.fx(31.0), c.fy(20.0)]])
+
+
+# kernels: DAOStarFinder / IRAFStarFinder with fwhm=4 build a 5x5 kernel, the StarFinder kernel is 7x7: the 'five' and
+# 'under' frames are exactly as large as those kernels, 'tight' is 9x9, 'row' / 'col' are thinner than every kernel
+@recipe('DAOStarFinder', ['detection.daofinder.DAOStarFinder'], units=True, geoms=G_DET)
 def _dao(c):
     from photutils.detection import DAOStarFinder
     d, m = _sub(c), c.mask()
-    xy = c.hold('xycoords', np.array([[15.0, 14.0], [31.0, 20.0]]))
+    xy = c.hold('xycoords', _xy2(c))
     f = c.step('DAOStarFinder', lambda: DAOStarFinder(c.q(50.0), 4.0, peakmax=c.q(5000.0)))
     if f is not None:
         c.step('DAOStarFinder()', lambda: f(d, mask=m), mix=True)
@@ -363,11 +458,11 @@ def _dao(c):
         c.step('DAOStarFinder[xycoords]()', lambda: f2(d, mask=m), mix=True)
 
 
-@recipe('IRAFStarFinder', ['detection.irafstarfinder.IRAFStarFinder'], units=True)
+@recipe('IRAFStarFinder', ['detection.irafstarfinder.IRAFStarFinder'], units=True, geoms=G_DET)
 def _iraf(c):
     from photutils.detection import IRAFStarFinder
     d, m = _sub(c), c.mask()
-    xy = c.hold('xycoords', np.array([[15.0, 14.0], [31.0, 20.0]]))
+    xy = c.hold('xycoords', _xy2(c))
     f = c.step('IRAFStarFinder', lambda: IRAFStarFinder(c.q(50.0), 4.0, peakmax=c.q(5000.0), roundhi=1.0, sharplo=0.0))
     if f is not None:
         c.step('IRAFStarFinder()', lambda: f(d, mask=m), mix=True)
@@ -386,7 +481,7 @@ def star_kernel(dtype=float):
     return k.astype(dtype)
 
 
-@recipe('StarFinder', ['detection.starfinder.StarFinder'], units=True)
+@recipe('StarFinder', ['detection.starfinder.StarFinder'], units=True, geoms=G_DET)
 def _starfinder(c):
     from photutils.detection import StarFinder
     d, m = _sub(c), c.mask()
@@ -463,16 +558,16 @@ def _harmonics(c):
 # --------------------------------------------------------------------------
 # photutils.morphology
 # --------------------------------------------------------------------------
-@recipe('data_properties', ['morphology.core.data_properties'], units=True)
+@recipe('data_properties', ['morphology.core.data_properties'], units=True, geoms=G_CUT)
 def _data_properties(c):
     from photutils.morphology import data_properties
-    d, m = _bkgsub(c), c.mask(region=CUT)
-    b = c.background(region=CUT)
+    d, m = _bkgsub(c), c.mask()          # one segment covering the whole array (also 1xN, Nx1, 3x3)
+    b = c.background()
     cat = c.step('data_properties', lambda: data_properties(d, mask=m, background=b), mix=True)
     c.members('data_properties', cat, skip=_SC_SKIP)
 
 
-@recipe('gini', ['morphology.non_parametric.gini'], units=True)
+@recipe('gini', ['morphology.non_parametric.gini'], units=True, geoms=G_LINE)
 def _gini(c):
     from photutils.morphology import gini
     d, m = c.data(), c.mask()
@@ -483,24 +578,24 @@ def _gini(c):
 # --------------------------------------------------------------------------
 # photutils.profiles
 # --------------------------------------------------------------------------
-@recipe('RadialProfile', ['profiles.radial_profile.RadialProfile'], units=True)
+@recipe('RadialProfile', ['profiles.radial_profile.RadialProfile'], units=True, geoms=G_ALL)
 def _radial_profile(c):
     from photutils.profiles import RadialProfile
     d, e, m = _sub(c), c.error(), c.mask()
-    radii = c.hold('radii', np.arange(0.0, 9.0))
-    xycen = c.hold('xycen', np.array([15.0, 14.0]))
+    radii = c.hold('radii', np.arange(0.0, 9.0))          # the outer apertures are larger than the small frames
+    xycen = c.hold('xycen', np.array([c.fx(15.0), c.fy(14.0)]))
     rp = c.step('RadialProfile', lambda: RadialProfile(d, xycen, radii, error=e, mask=m), mix=True)
     c.members('RadialProfile', rp)
     rp2 = c.step('RadialProfile[no error, center]', lambda: RadialProfile(d, xycen, radii, mask=m, method='center'))
     c.members('RadialProfile[no error]', rp2, only=('profile', 'profile_error', 'data_profile', 'gaussian_fwhm'))
 
 
-@recipe('CurveOfGrowth', ['profiles.curve_of_growth.CurveOfGrowth'], units=True)
+@recipe('CurveOfGrowth', ['profiles.curve_of_growth.CurveOfGrowth'], units=True, geoms=G_ALL)
 def _curve_of_growth(c):
     from photutils.profiles import CurveOfGrowth
     d, e, m = _sub(c), c.error(), c.mask()
     radii = c.hold('radii', np.arange(1.0, 9.0))
-    xycen = c.hold('xycen', np.array([15.0, 14.0]))
+    xycen = c.hold('xycen', np.array([c.fx(15.0), c.fy(14.0)]))
     cog = c.step('CurveOfGrowth', lambda: CurveOfGrowth(d, xycen, radii, error=e, mask=m), mix=True)
     c.members('CurveOfGrowth', cog)
     if cog is not None:
@@ -646,10 +741,14 @@ def _init_params(c, group=False):
     t['x'] = XPOS + 0.3
     t['y'] = YPOS - 0.2
     t['flux'] = c.q(np.array([9000.0, 7000.0, 6000.0]))
+    if c.geom != 'base':                 # a frame holds source 0 only
+        t = t[:1]
+        t['x'] = [c.src0()[0] + 0.3]
+        t['y'] = [c.src0()[1] - 0.2]
     return t
 
 
-@recipe('PSFPhotometry', ['psf.photometry.PSFPhotometry'], nddata=True, units=True)
+@recipe('PSFPhotometry', ['psf.photometry.PSFPhotometry'], nddata=True, units=True, geoms=G_SMALL + ('fullwidth',))
 def _psfphot(c):
     from photutils.background import LocalBackground
     from photutils.psf import CircularGaussianPRF, PSFPhotometry, SourceGrouper
@@ -657,12 +756,15 @@ def _psfphot(c):
     e, m = c.error(), c.mask()
     psf = c.hold('psf_model', CircularGaussianPRF(flux=1.0, fwhm=4.5))
     t = c.hold('init_params', _init_params(c))
+    # frames: the 7x7 fit box is the whole 'under' image, the 9x9 model box the whole 'tight' image; the local
+    # background annulus needs more room than a small frame has
+    lbe = LocalBackground(5, 8) if c.geom in ('base', 'fullwidth') else None
     ph = c.step('PSFPhotometry', lambda: PSFPhotometry(psf, (7, 7), aperture_radius=4, grouper=SourceGrouper(5),
-                                                      localbkg_estimator=LocalBackground(5, 8)))
+                                                      localbkg_estimator=lbe))
     if ph is None:
         return
     c.step('PSFPhotometry()', lambda: ph(d, mask=m, error=e, init_params=t), mix=True)
-    c.step('PSFPhotometry.make_model_image', lambda: ph.make_model_image(SHAPE, psf_shape=(9, 9)))
+    c.step('PSFPhotometry.make_model_image', lambda: ph.make_model_image(c.shape, psf_shape=(9, 9)))
     c.step('PSFPhotometry.make_residual_image', lambda: ph.make_residual_image(d, psf_shape=(9, 9)))
     c.step('PSFPhotometry.fit_results', lambda: {k: v for k, v in ph.fit_results.items() if k in ('fit_param_errs', 'npixfit')})
 
@@ -712,11 +814,11 @@ def _iterpsf(c):
         c.step(f'IterativePSFPhotometry[{mode}].make_residual_image', lambda: ph.make_residual_image(d, psf_shape=(9, 9)))
 
 
-@recipe('fit_2dgaussian', ['psf.utils.fit_2dgaussian'], units=True)
+@recipe('fit_2dgaussian', ['psf.utils.fit_2dgaussian'], units=True, geoms=G_SMALL)
 def _fit_2dgaussian(c):
     from photutils.psf import fit_2dgaussian
     d, e, m = _sub(c), c.error(), c.mask()
-    xy = c.hold('xypos', np.array([[15.0, 14.0], [31.0, 20.0]]))
+    xy = c.hold('xypos', _xy2(c)[:(2 if c.geom == 'base' else 1)])      # fit_shape 7 == the 'under' image
     r = c.step('fit_2dgaussian', lambda: fit_2dgaussian(d, xypos=xy, fwhm=4.0, fit_shape=7, mask=m, error=e), mix=True)
     if r is not None:
         c.step('fit_2dgaussian.results', lambda: r.results)
@@ -725,14 +827,17 @@ def _fit_2dgaussian(c):
         c.step('fit_2dgaussian[free fwhm].results', lambda: r2.results)
 
 
-@recipe('fit_fwhm', ['psf.utils.fit_fwhm'], units=True)
+@recipe('fit_fwhm', ['psf.utils.fit_fwhm'], units=True, geoms=G_SMALL)
 def _fit_fwhm(c):
     from photutils.psf import fit_fwhm
     d, e, m = _sub(c), c.error(), c.mask()
-    xy = c.hold('xypos', np.array([[15.0, 14.0], [31.0, 20.0]]))
+    xy = c.hold('xypos', _xy2(c)[:(2 if c.geom == 'base' else 1)])
     c.step('fit_fwhm', lambda: fit_fwhm(d, xypos=xy, fit_shape=7, mask=m, error=e), mix=True)
-    dc, mc = c.data(region=CUT, name='cutout', offset=(0.0 if c.cond == 'negatives' else -20.0)), c.mask(region=CUT, name='cutout_mask')
-    c.step('fit_fwhm[no xypos]', lambda: fit_fwhm(dc, fit_shape=9, mask=mc))
+    if c.geom == 'base':
+        dc, mc = c.data(region=CUT, name='cutout', offset=(0.0 if c.cond == 'negatives' else -20.0)), c.mask(region=CUT, name='cutout_mask')
+        c.step('fit_fwhm[no xypos]', lambda: fit_fwhm(dc, fit_shape=9, mask=mc))
+    else:       # the fit box is the whole image
+        c.step('fit_fwhm[no xypos, fit box = image]', lambda: fit_fwhm(d, fit_shape=c.shape, mask=m))
 
 
 @recipe('make_psf_model_image', ['psf.simulation.make_psf_model_image'], numeric=False, axes=())
@@ -764,12 +869,13 @@ def _matching(c):
 
 
 @recipe('EPSFBuilder', ['psf.epsf.EPSFBuilder', 'psf.epsf.EPSFFitter', 'psf.epsf_stars.EPSFStar', 'psf.epsf_stars.EPSFStars',
-                        'psf.epsf_stars.LinkedEPSFStar', 'psf.epsf_stars.extract_stars'], numeric=False, axes=('cond',))
+                        'psf.epsf_stars.LinkedEPSFStar', 'psf.epsf_stars.extract_stars'], numeric=False, axes=('cond',),
+        geoms=('base', 'tight', 'fullwidth'))
 def _epsf(c):
     from astropy.nddata import NDData, StdDevUncertainty
     from astropy.table import Table
     from photutils.psf import EPSFBuilder, EPSFFitter, EPSFStar, EPSFStars, extract_stars
-    arr = c.clean() - 20.0
+    arr = c.clean(region=(slice(None), slice(None))) - 20.0
     if c.cond == 'nonfinite':
         arr[3, 3] = np.nan
         arr[14, 17] = np.nan
@@ -777,6 +883,17 @@ def _epsf(c):
     if c.cond in ('masked', 'nonfinite'):
         m = np.zeros(SHAPE, bool)
         m[14, 16] = True
+    if c.geom != 'base':
+        # the 9x9 star cutout is the whole image ('tight') / spans every column of the image ('fullwidth')
+        err = c.clean('error')
+        nd = c.hold('nddata', NDData(arr[c.region].copy(), uncertainty=StdDevUncertainty(err), mask=None if m is None else m[c.region].copy()))
+        t = c.hold('catalogs', Table({'x': [c.src0()[0]], 'y': [c.src0()[1]]}))
+        stars = c.step('extract_stars[size 9]', lambda: extract_stars(nd, t, size=9))
+        if stars is not None:
+            c.hold('stars', stars)
+            c.members('EPSFStars', stars)
+            c.step('EPSFStars[0]', lambda: stars[0].data)
+        return
     nd = c.hold('nddata', NDData(arr, uncertainty=StdDevUncertainty(c.clean('error')), mask=m))
     t = c.hold('catalogs', Table({'x': XPOS.copy(), 'y': YPOS.copy()}))
     stars = c.step('extract_stars', lambda: extract_stars(nd, t, size=(11, 13)))
@@ -824,7 +941,16 @@ def _linked(c):
 # photutils.segmentation
 # --------------------------------------------------------------------------
 def _segm(c, deblend=False):
-    from photutils.segmentation import deblend_sources, detect_sources
+    """Segmentation image of the scene; for a frame: ONE segment, the part of
+    the 9x9 block around source 0 that lies inside the image -- the whole image
+    ('tight', 'under'), a run of complete rows ('fullwidth') or of complete
+    columns ('fullheight')."""
+    from photutils.segmentation import SegmentationImage, deblend_sources, detect_sources
+    if c.region is not None:
+        lab = np.zeros(c.shape, np.int32)
+        ixmin, ixmax, iymin, iymax = c.block_bbox()
+        lab[max(iymin, 0):max(iymax, 0), max(ixmin, 0):max(ixmax, 0)] = 1
+        return SegmentationImage(lab)
     clean = c.clean()
     segm = detect_sources(clean, 60.0, 5)
     if deblend:
@@ -835,7 +961,7 @@ def _segm(c, deblend=False):
 _SC_SKIP = ('copy',)
 
 
-@recipe('SourceCatalog', ['segmentation.catalog.SourceCatalog'], units=True)
+@recipe('SourceCatalog', ['segmentation.catalog.SourceCatalog'], units=True, geoms=G_BLOCK)
 def _source_catalog(c):
     from photutils.segmentation import SourceCatalog
     from photutils.utils._convolution import _filter_data
@@ -858,7 +984,7 @@ def _source_catalog(c):
     c.step('SourceCatalog.make_circular_apertures', lambda: cat.make_circular_apertures(3.0))
     c.step('SourceCatalog.make_kron_apertures', lambda: cat.make_kron_apertures((2.0, 1.0)))
     c.step('SourceCatalog.make_cutouts', lambda: [None if x is None else x.data for x in cat.make_cutouts((9, 9))])
-    c.step('SourceCatalog.get_labels', lambda: cat.get_labels([1, 2]).to_table())
+    c.step('SourceCatalog.get_labels', lambda: cat.get_labels([1, 2] if c.geom == 'base' else [1]).to_table())
     c.step('SourceCatalog[0]', lambda: cat[0].to_table())
 
 
@@ -867,7 +993,7 @@ def _kernel():
     return make_2dgaussian_kernel(3.0, size=5)
 
 
-@recipe('SourceCatalog[minimal, detection_cat]', ['segmentation.catalog.SourceCatalog'], units=True)
+@recipe('SourceCatalog[minimal, detection_cat]', ['segmentation.catalog.SourceCatalog'], units=True, geoms=('base', 'tight', 'fullwidth'))
 def _source_catalog_min(c):
     from photutils.segmentation import SourceCatalog
     d, m = _sub(c), c.mask()
@@ -880,7 +1006,7 @@ def _source_catalog_min(c):
                                                           'centroid_win', 'centroid_quad'))
 
 
-@recipe('SegmentationImage', ['segmentation.core.SegmentationImage', 'segmentation.core.Segment'], numeric=False)
+@recipe('SegmentationImage', ['segmentation.core.SegmentationImage', 'segmentation.core.Segment'], numeric=False, geoms=G_BLOCK)
 def _segmentation_image(c):
     from photutils.segmentation import SegmentationImage
     lab = _segm(c, deblend=True).data
@@ -888,7 +1014,7 @@ def _segmentation_image(c):
         lab = c._layout('segm_data', lab, 0)
     lab = c.hold('segm_data', lab)
     d, m = c.data(), c.mask()
-    mm = m if m is not None else c.hold('mask_arg', _coverage())
+    mm = m if m is not None else c.hold('mask_arg', _coverage()[:c.shape[0], :c.shape[1]].copy())
     segm = c.step('SegmentationImage', lambda: SegmentationImage(lab))
     c.members('SegmentationImage', segm)
     if segm is None:
@@ -896,7 +1022,8 @@ def _segmentation_image(c):
     c.step('SegmentationImage.make_source_mask', lambda: segm.make_source_mask(size=3))
     fp = c.hold('footprint', np.ones((3, 3), bool))
     c.step('SegmentationImage.make_source_mask[footprint]', lambda: segm.make_source_mask(footprint=fp))
-    c.step('SegmentationImage.get_area', lambda: (segm.get_area(1), segm.get_areas([1, 2]), segm.get_index(2), segm.get_indices([1, 2])))
+    two = [1, 2] if c.geom == 'base' else [1, 1]
+    c.step('SegmentationImage.get_area', lambda: (segm.get_area(1), segm.get_areas(two), segm.get_index(two[1]), segm.get_indices(two)))
     seg = c.step('SegmentationImage.segments[0]', lambda: segm.segments[0])
     c.members('Segment', seg)
     if seg is not None:
@@ -909,7 +1036,7 @@ def _segmentation_image(c):
     c.step('SegmentationImage.relabel_consecutive', lambda: segm.relabel_consecutive(start_label=3))
 
 
-@recipe('detect_threshold', ['segmentation.detect.detect_threshold'], units=True)
+@recipe('detect_threshold', ['segmentation.detect.detect_threshold'], units=True, geoms=G_LINE + ('tight',))
 def _detect_threshold(c):
     from photutils.segmentation import detect_threshold
     d, e, m = c.data(), c.error(), c.mask()
@@ -919,21 +1046,28 @@ def _detect_threshold(c):
     c.step('detect_threshold[scalars]', lambda: detect_threshold(d, 2.0, background=c.q(20.0), error=c.q(3.0), mask=m, sigma_clip=_sigclip()), mix=True)
 
 
-@recipe('detect_sources', ['segmentation.detect.detect_sources'], units=True)
+@recipe('detect_sources', ['segmentation.detect.detect_sources'], units=True, geoms=G_DET)
 def _detect_sources(c):
     from photutils.segmentation import detect_sources
     d, m = _sub(c), c.mask()
-    thr = c.hold('threshold', c.q(np.full(SHAPE, 60.0)))
+    thr = c.hold('threshold', c.q(np.full(c.shape, 60.0)))
     c.step('detect_sources', lambda: detect_sources(d, c.q(60.0), 5, mask=m), mix=True)
     c.step('detect_sources[threshold map, 4-conn]', lambda: detect_sources(d, thr, 5, connectivity=4, mask=m), mix=True)
+    if c.geom != 'base':     # every finite unmasked pixel is above the threshold: one segment covering the whole image
+        c.step('detect_sources[whole image]', lambda: detect_sources(d, c.q(-1000.0), 1, mask=m), mix=True)
 
 
-@recipe('deblend_sources', ['segmentation.deblend.deblend_sources'], units=True)
+BLEND = (slice(13, 30), slice(25, 43))       # 17x18 frame around the blended pair (sources 1 and 3)
+
+
+@recipe('deblend_sources', ['segmentation.deblend.deblend_sources'], units=True, geoms=('base', 'blend', 'tight'))
 def _deblend_sources(c):
-    from photutils.segmentation import deblend_sources
+    from photutils.segmentation import SegmentationImage, deblend_sources
+    if c.geom == 'blend':      # ONE segment that is the whole image and really splits in two
+        c.set_frame(BLEND)
     d = _sub(c)
-    segm = c.hold('segment_img', _segm(c))
-    labels = c.hold('labels', np.array([1, 2]))
+    segm = c.hold('segment_img', SegmentationImage(np.ones(c.shape, np.int32)) if c.geom != 'base' else _segm(c))
+    labels = c.hold('labels', np.array([1, 2]) if c.geom == 'base' else np.array([1]))
     c.step('deblend_sources', lambda: deblend_sources(d, segm, 5, progress_bar=False, nproc=1, contrast=0.0001))
     c.step('deblend_sources[labels, linear, no relabel]', lambda: deblend_sources(d, segm, 5, labels=labels, mode='linear', nlevels=8,
                                                                                  relabel=False, progress_bar=False, connectivity=4))
@@ -952,20 +1086,33 @@ def _source_finder(c):
 # --------------------------------------------------------------------------
 # photutils.utils
 # --------------------------------------------------------------------------
-@recipe('_moments', ['utils._moments._moments', 'utils._moments._moments_central'], units=False)
+@recipe('_moments', ['utils._moments._moments', 'utils._moments._moments_central'], units=False, geoms=G_CUT)
 def _moments(c):
     from photutils.utils._moments import _moments, _moments_central
     d = _bkgsub(c)
-    cen = c.hold('center', (10.2, 9.1))
+    cen = c.hold('center', (c.fx(15.2), c.fy(14.1)) if c.geom != 'base' else (10.2, 9.1))
     c.step('_moments', lambda: _moments(d, order=3))
     c.step('_moments_central', lambda: _moments_central(d, center=cen, order=3))
     c.step('_moments_central[no center]', lambda: _moments_central(d, order=2))
 
 
-@recipe('CutoutImage', ['utils.cutouts.CutoutImage'], units=True)
+@recipe('CutoutImage', ['utils.cutouts.CutoutImage'], units=True, geoms=G_ALL)
 def _cutout_image(c):
     from photutils.utils.cutouts import CutoutImage
     d = c.data()
+    if c.geom != 'base':
+        # cutout == the whole image, and a cutout that is larger than the image on every side
+        ny, nx = c.shape
+        pos = c.hold('position', ((ny - 1) // 2, (nx - 1) // 2))
+        for mode, shp, cp in (('trim', (ny, nx), False), ('strict', (ny, nx), False), ('partial', (ny, nx), True),
+                              ('trim', (ny + 2, nx + 2), False), ('partial', (ny + 2, nx + 2), False)):
+            lab = f'CutoutImage[{mode}, {"image" if shp == (ny, nx) else "image+2"}, copy={cp}]'
+            co = c.step(lab, lambda: CutoutImage(d, pos, shp, mode=mode, copy=cp, fill_value=0))
+            c.members(lab, co)
+            if co is not None:
+                c.step(f'{lab}.data', lambda: co.data)
+                c.step(f'{lab}.__array__', lambda: np.asarray(co))
+        return
     pos = c.hold('position', (14, 15))
     for mode, p, cp in (('trim', (14, 15), False), ('partial', (1, 1), False), ('partial', (14, 15), True), ('strict', (14, 15), True)):
         co = c.step(f'CutoutImage[{mode}, {p}, copy={cp}]', lambda: CutoutImage(d, p if p != (14, 15) else pos, (9, 7), mode=mode, copy=cp, fill_value=0))
@@ -991,14 +1138,17 @@ def _image_depth(c):
     c.step('ImageDepth[overlap, mask_pad]()', lambda: depth2(d, sm))
 
 
-@recipe('calc_total_error', ['utils.errors.calc_total_error'], units=True)
+@recipe('calc_total_error', ['utils.errors.calc_total_error'], units=True, geoms=G_LINE)
 def _calc_total_error(c):
     import astropy.units as u
     from photutils.utils import calc_total_error
     d = c.data()
     b = c.error(name='bkg_error')
-    gain = np.full(SHAPE, 2.0)
-    gain[0, :] = 0.0
+    gain = np.full(c.shape, 2.0)
+    if c.geom == 'base':
+        gain[0, :] = 0.0
+    else:
+        gain[0, 0] = 0.0                 # (a whole row would be the whole one-row image)
     gq = c.unitful_data or c.unitful_companion
     g = c.hold('effective_gain', gain * (u.electron / c.unit) if gq else gain)
     c.step('calc_total_error', lambda: calc_total_error(d, b, 2.0 * (u.electron / c.unit) if gq else 2.0), mix=True)
